@@ -8,7 +8,7 @@ open Pox Pox.Proto Pox.Packet Pox.Actions
   {"var":{"d7":b,"d8":b,"c121":b}, "ports":[{"no":n,"hw":hex,"config":n,"state":n},…], "ops":[op,…]}
     op = {"op":"portmod","port":n,"hw":hex,"config":n,"mask":n} | {"op":"setconfig","flags":n,"miss":n}
        | {"op":"flow","in_port":n|null,"acts":[act,…]} | {"op":"pktout","in_port":n,"acts":[act,…],"data":hex}
-       | {"op":"rx","port":n,"data":hex} | {"op":"link","port":n,"down":b}
+       | {"op":"rx","port":n,"data":hex[,"nopd":true]} | {"op":"link","port":n,"down":b}
     act = {"a":"output","port":n,"max_len":n} | {"a":"set_vlan_vid","v":n} | {"a":"set_vlan_pcp","v":n} | {"a":"strip_vlan"}
         | {"a":"set_dl_src","v":hex} | {"a":"set_dl_dst","v":hex} | {"a":"set_nw_src","v":n} | {"a":"set_nw_dst","v":n}
         | {"a":"set_nw_tos","v":n} | {"a":"set_tp_src","v":n} | {"a":"set_tp_dst","v":n}
@@ -61,6 +61,8 @@ def opOfJ (j : J) : Except String Op := do
     pure (.packetOut (← (← j.array "acts").mapM actOfJ) (← frameOf (← j.bytes "data")) (← j.nat "in_port"))
   else if k = "rx" then
     let d ← j.bytes "data"
+    let nopd := match j.get? "nopd" with | some (.bool true) => true | _ => false
+    if nopd then pure (.rxObj (← frameOf d) (← j.nat "port")) else
     pure (.rx (← frameOf d) (← j.nat "port") d)
   else if k = "link" then pure (.link (← j.nat "port") (← j.boolean "down"))
   else throw s!"unknown op {k}"
@@ -80,6 +82,7 @@ def portJ (sw : Sw) (p : Port) : J :=
 def specOf (sw : Sw) : Op → J
   | .packetOut acts f inPort => J.arr ((Spec.emitted sw acts f inPort).map outJ)
   | .rx f inPort wire => J.arr ((Spec.rxOuts sw f inPort wire).map outJ)
+  | .rxObj f inPort => J.arr ((Spec.rxObjOuts sw f inPort).map outJ)
   | _ => J.null
 
 def loop (var : Variant) : Sw → List Op → List J → List J → Sw × List J × List J × Option String
